@@ -376,8 +376,8 @@ class Interp:
     def truth(self, v):
         """python truthiness as python bool or z3 Bool."""
         if isinstance(v, SV):
-            hit = self.ctx.ghost.get('resolved', {}).get(v.e.get_id())
-            if hit is None:
+            hit = self.ctx.ghost.get('resolved', {}).get((v.e.get_id(), 0))
+            if hit is None and v.hint is None:
                 return self.truthy_val(v.e)
         v = self.resolve(v)
         if isinstance(v, (bool, int, float, str, bytes, type(None), tuple, list, dict, set)):
@@ -434,15 +434,17 @@ class Interp:
         e = v.e
         V = VAL
         cache = self.ctx.ghost.setdefault('resolved', {})
-        hit = cache.get(e.get_id())
+        org = getattr(v, 'origin', None)
+        ck = (e.get_id(), id(org) if (org is not None and v.hint is not None) else 0)
+        hit = cache.get(ck)
         if hit is not None:
             return hit[1]          # established earlier on this path (entries are never stored while speculating)
-        r = self._resolve(e, v.hint)
+        r = self._resolve(e, v.hint, org)
         if not self.ctx.ghost.get('speculating', 0):
-            cache[e.get_id()] = (e, r)
+            cache[ck] = (e, r, org)
         return r
 
-    def _resolve(self, e, hint=None):
+    def _resolve(self, e, hint=None, origin=None):
         V = VAL
         # (a value read from a dict or passed as an argument is never `absent`)
         opts = [V.is_vbytes(e), V.is_vint(e), V.is_vblist(e), V.is_vbool(e), V.is_vstr(e), V.is_vfloat(e),
@@ -465,12 +467,12 @@ class Interp:
         if k == 6:
             return None
         if k == 7:
-            return self.deref(V.r(e), hint)
+            return self.deref(V.r(e), hint, origin)
         if k == 8:
             return Opaque('opq', V.o(e))
         raise Unsupported('use of absent value')
 
-    def deref(self, rid, hint=None):
+    def deref(self, rid, hint=None, origin=None):
         """reference id -> heap object (known objects first, else a registered unknown)."""
         heap = self.ctx.ghost.setdefault('heap', {})
         c = sym.concrete_int(rid)
@@ -479,7 +481,7 @@ class Interp:
         mk = self.ctx.ghost.get('unknown_factory')
         if mk is None:
             return Opaque('ref', rid)       # an object the engine knows nothing about
-        return mk(self, rid, hint)
+        return mk(self, rid, hint, origin)
 
     def to_val(self, v):
         """python-side value -> z3 Val (for storing into HDict / ZList('val'))."""
@@ -948,33 +950,35 @@ class Interp:
         if st.orelse:
             raise Unsupported('while/else')
         spec = self.reg.loop_spec(key, k) if self.reg else None
-        if spec is None:
-            # unroll while the condition is concretely decidable on this path
-            n = 0
-            while True:
-                c = self.truth(self.ev(st.test, env))
-                cb = c if isinstance(c, bool) else sym.concrete_bool(c)
-                if cb is None:
-                    if self.ctx.valid(c):
-                        cb = True
-                    elif self.ctx.valid(z3.Not(c)):
-                        cb = False
-                    else:
-                        raise Unsupported(f'loop {key}#{k}: symbolic trip count and no invariant in the sidecar')
-                if not cb:
-                    return
-                n += 1
-                if n > 4096:
-                    raise Unsupported(f'loop {key}#{k}: unrolling limit')
-                try:
-                    self.run_block(st.body, env)
-                except _Break:
-                    return
-                except _Continue:
-                    continue
-        else:
-            self.loop_with_invariant(key, k, spec, env, st.body,
-                                     cond=lambda e: self.truth(self.ev(st.test, e)), step=None, node=st)
+        # unroll while the condition is concretely decidable on this path; a symbolic condition needs
+        # the invariant from the sidecar (Hoare rule from the state reached so far)
+        n = 0
+        while True:
+            c = self.truth(self.ev(st.test, env))
+            cb = c if isinstance(c, bool) else sym.concrete_bool(c)
+            if cb is None and (spec is None or self.ctx.ghost.get('lemma_mode')):
+                if self.ctx.valid(c):
+                    cb = True
+                elif self.ctx.valid(z3.Not(c)):
+                    cb = False
+            if cb is None:
+                if spec is None:
+                    raise Unsupported(f'loop {key}#{k}: symbolic trip count and no invariant in the sidecar')
+                if n and not self.ctx.ghost.get('lemma_mode'):
+                    raise Unsupported(f'loop {key}#{k}: condition became symbolic after {n} concrete iterations')
+                return self.loop_with_invariant(key, k, spec, env, st.body,
+                                                cond=lambda e: self.truth(self.ev(st.test, e)), step=None, node=st)
+            if not cb:
+                return
+            n += 1
+            if n > 4096:
+                raise Unsupported(f'loop {key}#{k}: unrolling limit')
+            try:
+                self.run_block(st.body, env)
+            except _Break:
+                return
+            except _Continue:
+                continue
 
     def st_For(self, st, env):
         key, k = self._loop_ordinal()
@@ -1124,8 +1128,9 @@ class Interp:
     def clauses(self, res):
         if res is None:
             return []
-        if isinstance(res, (list, tuple)) and all(isinstance(x, tuple) and len(x) == 2 and isinstance(x[0], str)
-                                                 for x in res):
+        if isinstance(res, (list, tuple)):
+            if not all(isinstance(x, tuple) and len(x) == 2 and isinstance(x[0], str) for x in res):
+                raise Unsupported('a contract clause list must consist of (concrete label, condition) pairs')
             return [(l, self.truth(c)) for l, c in res]
         return [('c', self.truth(res))]
 
@@ -1771,6 +1776,8 @@ class Interp:
         raise Unsupported(f'iteration over symbolic {type(v).__name__}')
 
     def zl_get(self, zl, i):
+        if zl.items is not None and isinstance(i, int) and 0 <= i < len(zl.items):
+            return zl.items[i]
         e = z3.Select(zl.arr, zint(i))
         return sym_bytes(e) if zl.elem == 'bytes' else SV(e)
 
@@ -1860,6 +1867,8 @@ class Interp:
     def call_repo(self, f: AstFunc, args, kwargs):
         """Call of a repository function: modular (contract) unless the policy says inline."""
         pol = self.reg.policy(f.key) if self.reg else 'inline'
+        if f.key in self.ctx.ghost.get('inline_extra', ()):
+            pol = 'inline'
         if pol == 'inline':
             return self.call_ast(f, args, kwargs)
         if pol == 'contract':
